@@ -66,6 +66,7 @@ func writeEvidence(prop, tier string, seed uint64, results []*RunResult, nviol i
 	agg := map[string]int64{}
 	distinct := map[string]bool{}
 	distinctAll := map[string]bool{}
+	finalStates := map[string]bool{}
 	var simTime float64
 	var blocks, steps int
 	var samples []json.RawMessage
@@ -81,6 +82,9 @@ func writeEvidence(prop, tier string, seed uint64, results []*RunResult, nviol i
 			}
 		}
 		distinctAll[r.Trace] = true
+		if r.FinalState != "" {
+			finalStates[r.FinalState] = true
+		}
 		if rule.Pred(r.Stats) {
 			distinct[r.Trace] = true
 		}
@@ -121,6 +125,8 @@ func writeEvidence(prop, tier string, seed uint64, results []*RunResult, nviol i
 			"distinct = distinct SHA-256 of the full event trace (every tx verdict, fault firing and per-block app hash); non-trivial = " + rule.Text,
 		"samples":                    samples,
 		"distinct_traces_all":        len(distinctAll),
+		"states":                     len(finalStates),
+		"distinct_final_custom_states": len(finalStates),
 		"runs_per_hour":              float64(len(results)) / wall * 3600,
 		"simulated_time_s":           simTime,
 		"blocks_executed_reference":  blocks,
